@@ -365,6 +365,7 @@ inductive ResEv
   | groupLeave
   | addNamed (name path : Bytes) (methods : List Bytes)
   | use (routeName : Bytes) (handlers : List Nat)
+  | addRoutes (controller : Nat)     -- `controller.AddRoutes(r)` of `Router.Controller`
   deriving DecidableEq, Repr
 
 /-- the renderers of pkg/render that the context helpers construct -/
